@@ -1,8 +1,8 @@
 SPECIFICATION Spec
 CONSTANTS
-  OptSet <- OptsPlain
-  CallSet <- SingleCalls
-  ChangeSet <- MoveChanges
+  OptSet <- OptsOne
+  CallSet <- InitTxCalls
+  ChangeSet <- InitTxChanges
   MaxCalls = 1
   MaxChanges = 1
   MaxGen = 3
@@ -14,15 +14,15 @@ CONSTANTS
   BugTxNoMulti = FALSE
   BugPredIgnored = FALSE
   BugNodeOrder = FALSE
-  BugMovedIgnored = TRUE
+  BugMovedIgnored = FALSE
   BugMaxOffByOne = FALSE
   BugSelClamp = FALSE
-  BugRefreshDropsInit = FALSE
+  BugRefreshDropsInit = TRUE
   BugAskRunNoInit = FALSE
   BugPoolStale = FALSE
   BugStreamKeyless = FALSE
   BugPromoteReplica = FALSE
-INVARIANTS TypeOK RedirectFollowed
+INVARIANTS TypeOK TxResentWhole
 CONSTRAINT GenBound
 VIEW MCView
 CHECK_DEADLOCK FALSE
